@@ -32,11 +32,16 @@ func body(sc scen) func() {
 		})
 		vsync.GoNamed("recvB", func() {
 			defer wg.Done()
+			if sc.fault == "reattach-b" {
+				e.Ref("B", "A")
+				vsync.Yield("reattach")
+				e.Reattach("B", "A")
+			}
 			for i := 0; i < sc.nmsg; i++ {
 				e.Recv(e.Ctx, "B", "A")
 			}
 		})
-		if sc.fault != "" {
+		if sc.fault != "" && sc.fault != "reattach-b" {
 			wg.Add(1)
 			vsync.GoNamed("fault", func() {
 				defer wg.Done()
@@ -49,8 +54,6 @@ func body(sc scen) func() {
 					e.BreakSession("B")
 				case "break-a":
 					e.BreakSession("A")
-				case "reattach-b":
-					e.Reattach("B", "A")
 				}
 			})
 		}
@@ -68,10 +71,10 @@ func body(sc scen) func() {
 func TestC21(t *testing.T) {
 	run := evid.Start("C21", "model_checking")
 	agg := mc.NewAgg(run)
-	bound := 2
+	bound := 1
 	scens := []scen{{"one-message", "", 1}, {"cancel-send", "cancel-send", 1}, {"break-b", "break-b", 1}, {"reattach-b", "reattach-b", 1}}
 	if !run.Quick() {
-		bound = 3
+		bound = 2
 		scens = append(scens, scen{"two-messages", "", 2}, scen{"break-a", "break-a", 1}, scen{"two-messages-break-b", "break-b", 2})
 	}
 	mc.RunScenarios(t, agg, len(scens), func(i int) *vsync.Config {
